@@ -106,6 +106,8 @@ pub const NEAR_MISS: &[&str] = &[
     "#\\a", "#\\space", "#\\spa", "#\\x41", "#\\x", "#\\xZ", "#\\x110000", "#\\xD800", "#\\(", "#\\)", "#\\ ", "#\\λ", "#\\nul", "#\\newline", "#\\delete1",
     "#u8(", "#vu8(", "#u8", "#u", "#v", "#vu9(", "#(", "#[", "{", "}", "\\", "|", "@", "λ", "λx", "→", "+λ", "$x:", "_a:", "é:", ".a:", "..:", "(.k: v)", "(x .y:)", "(.nil .t)", "#(.k:)", ".nil", "-:", "+t:", "#!eof", "1_000",
     ".|x", ".\"x", ".\u{0}x", "'.|x", "(a .|x)", "(a .\"b\")", "(a .|b|)", "#(.|x)", ".(", ".;c", "+|x", "+\"x",
+    // a dotted tail that is itself written as a list, an empty list or a nil spelling
+    "(a . ())", "(a b . ( ))", "(a . nil)", "((a . nil) (b . 1))", "#((1 . ()))", "(a . (b . ()))", "(a . (b c))", "(a . #nil)", "(a . [])", "[a . ()]", "(a . '())", "(() . ())", "(a . (b . c))", "'(a . ())",
 ];
 pub const STR_TOKENS: &[&str] = &[
     "\"\"", "\"abc\"", "\"a\\nb\"", "\"\\a\\b\\t\\n\\v\\f\\r\\\"\\\\\"", "\"\\x41;bc\"", "\"\\x41bc;\"", "\"\\x41\"", "\"\\x;\"", "\"\\x110000;\"",
@@ -240,7 +242,17 @@ pub fn foreign_text(r: &mut Rng, depth: u32, out: &mut String) {
                 if o == "(" || o == "[" {
                     if r.chance(1, 4) {
                         out.push_str(" . ");
-                        out.push_str(&pick_token(r));
+                        match r.below(6) {
+                            // the tail written as an empty list, a nil spelling, or a list of its own
+                            0 => out.push_str(*r.pick(&["()", "( )", "nil", "[]", "#nil", "'()"])),
+                            1 if depth < 5 => {
+                                let (o2, c2) = *r.pick(&[("(", ")"), ("[", "]"), ("#(", ")")]);
+                                out.push_str(o2);
+                                if r.chance(3, 4) { foreign_text(r, depth + 1, out); }
+                                out.push_str(c2);
+                            }
+                            _ => out.push_str(&pick_token(r)),
+                        }
                     }
                 }
                 if r.chance(19, 20) {
